@@ -231,7 +231,27 @@ def _judge(r, e, kind, name, args, src_cells, is_fmt):
     if isinstance(e, str):
         if not isinstance(r, FmtStr) or r.s != e:
             return False
-        return _bounds_ok(_scells(r), src_cells)
+        rc = _scells(r)
+        if name in ("ljust", "rjust") and not (args and args[0] is not None) and len(rc) >= len(src_cells) and src_cells:
+            # padding without a fill character: the original characters are judged as text, the padding spaces must show the
+            # shared background when there is one (all shared formatting otherwise) and nothing that no character had -
+            # whether the padding also carries the other shared attributes is not fixed by the statement (the repository's
+            # own test_ljust_rjust pins background-only padding)
+            npad = len(rc) - len(src_cells)
+            pad = rc[len(src_cells):] if name == "ljust" else rc[:npad]
+            body = rc[:len(src_cells)] if name == "ljust" else rc[npad:]
+            first = src_cells[0][1]
+            shared = {k: v for k, v in first.items() if all(d.get(k) == v for _, d in src_cells)}
+            need = {"bg": shared["bg"]} if "bg" in shared else shared
+            for _, d in pad:
+                for k, v in need.items():
+                    if d.get(k) != v:
+                        return False
+                for k, v in d.items():
+                    if not any(sd.get(k) == v for _, sd in src_cells):
+                        return False
+            return _bounds_ok(body, src_cells)
+        return _bounds_ok(rc, src_cells)
     if isinstance(e, list):
         if not isinstance(r, list) or len(r) != len(e):
             return False
